@@ -44,6 +44,8 @@ func C01Offered(sets string) []int {
 		return []int{1, 2, 3}
 	case "versioned8_10":
 		return []int{8, 10}
+	case "versioned02":
+		return []int{0, 2}
 	}
 	return nil
 }
